@@ -1,2 +1,55 @@
-import Pakhi.Model.Interp
-import Pakhi.Model.Parser
+/-
+  C12 — the parser is total: any token stream yields an AST or an error value.
+
+  `parse_never_panics`: for EVERY token list (not only tokenizer outputs: truncated, with tokens
+  deleted, duplicated, swapped or inserted), every file system the module loader may read from and
+  every fuel, `parse` returns a statement list, an error value or runs out of the model's fuel — it
+  never panics.  Every look-ahead is the saturating accessor of fix F7 (in the model: the head of
+  the remaining suffix, end marker when empty), the `todo!()` of fix F8 is gone, and the loader's
+  path arithmetic (fix F10) is total.  The proof covers all eleven mutually recursive expression
+  functions, the nine statement parsers, the import-path scanner, `_ডাইরেক্টরি` expansion, renaming
+  and splicing.  That the fuel `exprFuel`/the statement loop suffices (no hang) is decided by the
+  C12 correspondence runs (the Rust parser has no fuel: a `fuel` answer of the model against an
+  answer of the implementation is a disagreement); the native stack is KNOWN-FINDING C12-native-stack.
+-/
+import Pakhi.Lemmas.ParseNP
+
+namespace Pakhi
+namespace C12
+
+/-- none of the eleven mutually recursive expression-parsing functions ever panics -/
+theorem expr_parser_never_panics (f : Nat) :
+    (∀ k s p, pLevel f k s ≠ .panic p) ∧ (∀ k e s p, pLevelLoop f k e s ≠ .panic p) ∧
+    (∀ s p, pUnary f s ≠ .panic p) ∧ (∀ s p, pCall f s ≠ .panic p) ∧ (∀ e s p, pCallLoop f e s ≠ .panic p) ∧
+    (∀ e s p, pFinishCall f e s ≠ .panic p) ∧ (∀ s p, pArgs f s ≠ .panic p) ∧ (∀ s p, pPrimary f s ≠ .panic p) ∧
+    (∀ e s p, pIndexLoop f e s ≠ .panic p) ∧ (∀ s p, pListElems f s ≠ .panic p) ∧ (∀ s p, pRecordElems f s ≠ .panic p) :=
+  expr_no_panic f
+
+/-- one statement (module imports included) never panics -/
+theorem statement_never_panics (ctx : PCtx) (hmain : (pathParent ctx.mainPath).isSome = true) (f : Nat) (s : PS) (p : String) :
+    pStatement ctx f s ≠ .panic p := pStatement_np ctx hmain f s p
+
+/-- the whole parser never panics, for every token list and every file system -/
+theorem parse_never_panics (ctx : PCtx) (fuel : Nat) (toks : List Token) (hmain : (pathParent ctx.mainPath).isSome = true)
+    (hname : (pathFileName ctx.mainPath).isSome = true) (hlen : 2 ≤ ctx.mainPath.length) (p : String) :
+    parse ctx fuel toks ≠ .panic p := parse_np ctx fuel toks hmain hname hlen p
+
+/-- hence the outcome is a statement list, an error value, or the model's fuel ran out -/
+theorem parse_outcome (ctx : PCtx) (fuel : Nat) (toks : List Token) (hmain : (pathParent ctx.mainPath).isSome = true)
+    (hname : (pathFileName ctx.mainPath).isSome = true) (hlen : 2 ≤ ctx.mainPath.length) :
+    (∃ prog, parse ctx fuel toks = .ok prog) ∨ (∃ e, parse ctx fuel toks = .err e) ∨ parse ctx fuel toks = .fuel := by
+  cases h : parse ctx fuel toks with
+  | ok prog => exact Or.inl ⟨prog, rfl⟩
+  | err e => exact Or.inr (Or.inl ⟨e, rfl⟩)
+  | panic p => exact absurd h (parse_np ctx fuel toks hmain hname hlen p)
+  | fuel => exact Or.inr (Or.inr rfl)
+
+/-- the look-ahead accessors are total: past the end they see the end marker -/
+theorem peek_past_end (s : PS) (h : s.rest = []) : s.peek = .eot ∧ s.peek1 = .eot ∧ s.adv = s := by
+  simp [PS.peek, PS.peek1, PS.adv, h]
+
+/-- non-vacuity: a main path such as the harness uses satisfies the hypotheses -/
+example : (pathParent "/r/main.pakhi".toList).isSome = true ∧ (pathFileName "/r/main.pakhi".toList).isSome = true := by decide
+
+end C12
+end Pakhi
